@@ -70,7 +70,7 @@ func RunCheck(w *World, o CheckOpts) int {
 	if timeout == 0 {
 		// almost every obligation is decided in well under a second; the budget only matters for the two CRC-24
 		// equivalence lemmas (about 20 s on one solver) and for obligations that fail
-		timeout = 90
+		timeout = 120
 		if o.Tier == "thorough" {
 			timeout = 300
 		}
@@ -157,6 +157,9 @@ func RunCheck(w *World, o CheckOpts) int {
 			total++
 			byClass[r.Class]++
 			solverS += r.Seconds
+			if r.Seconds > 5 && os.Getenv("GOVC_SLOW") != "" {
+				fmt.Printf("SLOW %.1fs %s [%s %s]\n", r.Seconds, r.Name, r.How, r.Solver)
+			}
 			if r.Status == "discharged" {
 				discharged++
 				how := r.How
